@@ -38,11 +38,11 @@ MSS = 512
 
 
 def plan(tier):
-    return {"shards": 4, "timeout": 900} if tier == "quick" else {"shards": 16, "timeout": 3000}
+    return {"shards": 4, "timeout": 900} if tier == "quick" else {"shards": 16, "timeout": 3400}
 
 
 def ncases(tier):
-    return 400 if tier == "quick" else 4000
+    return 400 if tier == "quick" else 6000
 
 
 def gen_case(rng, i):
